@@ -58,11 +58,26 @@ Data sizes : the writer's durability calls must not depend on HOW MUCH is writte
              in-process tracer records the bytes arrow has put into the temp file at every fsync of it (not only at close), so
              a footer written after an incremental fsync is a separate, later write.
              Coq: Model/DurableChunks.v replaces the single Write of the regenerated data-writer sequence by an arbitrary list
-             of bursts with optional incremental fsyncs; C16_chunked_each_publish / C16_chunked_disciplined hold for EVERY such
-             list; C16_unsynced_tail_rejected / C16_nofinal_rejected / C16_unsynced_tail_torn: no fsync after the last write =>
-             rejected, and the drop-all power loss leaves a torn file.  translator/gen_durable.py: a durability call in any
+             of bursts with optional incremental fsyncs; C16_chunked_each_publish holds for EVERY such list.  Second audit:
+             Model/DurableChunks.v burst_of tr' tr (ANY Write of a trace replaced by bursts of the same content, optional
+             incremental fsyncs) + Proofs/DurableBurstsProofs.v: C16_burst_refines (the discipline accepts every burst refinement
+             of a trace it accepts and ends in a ghost state equal on every final name / the referenced set / the open temps:
+             the frame the first C16_chunked_disciplined lacked), C16_chunked_is_burst_of, and the HEADLINE theorems lifted:
+             C16_durable_prefix_bursts / C16_acked_durable_bursts = C16_durable_prefix / C16_acked_durable over every burst
+             refinement of trace_of ops.  Not lifted: a failure BETWEEN two bursts of a failing publish (OFail keeps failed_of's
+             one-Write shape; such a file is never renamed).  C16_unsynced_tail_rejected (now with ANY calls other than an
+             fsync / unlink of the file between the last Write and the Rename) / C16_nofinal_rejected / C16_unsynced_tail_torn:
+             no fsync after the last write => rejected, and the drop-all power loss leaves a torn file.  translator/gen_durable.py: a durability call in any
              DataFileWriter method other than open / close, a syncing helper, or a durability call under a condition other than
              the pinned ones (backend, writer opened) is Unsupported (fail closed); gen_data_writer_burst.
+Threads    : in-process concurrency is a dimension of the traces: ["threads", [[n, ..], ..], holds] runs 2-3 writer threads of ONE
+             process on one table (c16_driver._run_threads), scheduled deterministically at the os.fsync(directory) /
+             os.replace boundaries by the in-process tracer (ostrace.ThreadSched: the k-th directory fsync of a thread is slow
+             until another thread's rename into that directory has landed).  The tracer records for a directory fsync the raw
+             index at which it was ISSUED when calls of other threads were recorded before it returned; the power-loss
+             evaluator persists the entries the directory had at the issue instant, at the return instant (a rename that
+             lands while somebody else's fsync of the directory is running is not covered by it).  Oracle only: every prefix
+             of the interleaved trace, acknowledged-commit check at the join.
 Bounded    : every in-process run happens in a worker subprocess (harness/lib/c16_worker.py) with a wall-clock
              alarm, an address-space limit and a progress watchdog; a hang / crash / memory blow-up of the library
              is reported as a violation with its input (key operation-not-bounded:*), never a stuck check.
@@ -80,7 +95,8 @@ from harness.lib import coqbuild, ostrace, powerloss, c16_driver, c16_worker, c1
 
 LEVEL = "proof"
 THEOREMS = ["C16_durable_prefix", "C16_acked_durable", "C16_each_publish", "C16_publish_data_same", "C16_disciplined_safe",
-            "C16_chunked_each_publish", "C16_chunked_disciplined", "C16_unsynced_tail_rejected", "C16_nofinal_rejected",
+            "C16_chunked_each_publish", "C16_chunked_is_burst_of", "C16_burst_refines", "C16_chunked_disciplined",
+            "C16_durable_prefix_bursts", "C16_acked_durable_bursts", "C16_unsynced_tail_rejected", "C16_nofinal_rejected",
             "C16_unsynced_tail_torn"]
 REQ = ["DS.Model.Durable"]
 PRE = "Open Scope N_scope.\n"
@@ -98,9 +114,13 @@ MANIFEST_ENTRY = {
                   "(EIO or short write) injected at each durability call, files and directories alike; data sizes are a dimension "
                   "of the traces: appends of k*c-1, k*c, k*c+1 rows for every integer literal c of the writer modules through every "
                   "public write path (append_records, append_data, append_pandas when pandas is present, caller-driven DataFileWriter "
-                  "+ append_files), and C16_chunked_each_publish / C16_chunked_disciplined / C16_unsynced_tail_rejected / "
+                  "+ append_files), and C16_chunked_each_publish / C16_unsynced_tail_rejected / "
                   "C16_nofinal_rejected / C16_unsynced_tail_torn cover a data file written in ANY number of bursts with ANY pattern of "
-                  "incremental fsyncs (whole or absent at every prefix; no fsync after the last write => rejected and torn)",
+                  "incremental fsyncs (whole or absent at every prefix; no fsync after the last write, whatever other calls lie "
+                  "between it and the rename => rejected and torn); C16_durable_prefix_bursts / C16_acked_durable_bursts are the two "
+                  "headline theorems over EVERY burst refinement of the history's trace (any Write of any file split into bursts "
+                  "with optional incremental fsyncs; C16_burst_refines / C16_chunked_is_burst_of / C16_chunked_disciplined give the "
+                  "simulation with its frame)",
     "level_note": "trusted: Coq kernel; the POSIX-strict power-loss model (fsync = barrier for one inode, directory fsync = "
                   "barrier for that directory's entries); translator/gen_durable.py; the tracers and the canonicaliser; "
                   "directory creation (makedirs) and the table root's own entry are outside the theorems; OS failures INSIDE "
@@ -166,6 +186,14 @@ class Case:
         self.fault, self.faultlog, self.error = fault, faultlog or [], error
         self.reader = reader
         self.namer = ostrace.Namer()
+        # several writer threads in one process: the interleaved trace is judged by the power-loss oracle (directory
+        # fsyncs by their ISSUE instant); Durable.trace_of describes one writer, so no model ops are rebuilt
+        self.threaded = any(st and st[0] == "threads" for st in steps)
+        if self.threaded:
+            self.can = {"calls": [], "marks": {}, "published": [], "unknown": [], "raw_index": [],
+                        "dropped": {"locks": 0, "open_nocreat": 0, "reopen_empty": 0}}
+            self.calls, self.problems, self.ops = [], ["threaded scenario: oracle only"], []
+            return
         self.can = ostrace.canonicalise(raw, root, self.namer, self.tokens_for)
         self.calls: List[Any] = self.can["calls"]
         self.problems: List[str] = []
@@ -670,6 +698,27 @@ def random_scenario(rng, maxlen: int) -> List[Any]:
     return steps
 
 
+def thread_scenarios(rng, quick: bool) -> List[List[Any]]:
+    """In-process concurrency as a dimension of the durability traces: 2-3 writer threads of ONE process appending to one
+    table (same data/, metadata/inflight, metadata/manifests, metadata/ and root directories), scheduled at the directory
+    fsync / rename boundaries: for k = 0, 1, 2, ... the k-th directory fsync of one thread is slow (ostrace.ThreadSched),
+    so that another thread's rename into that directory lands while it is in progress; also two slow fsyncs at once, and
+    tables with history.  What is judged: every prefix of the INTERLEAVED trace, a directory fsync persisting the
+    entries its directory had when it was issued."""
+    out: List[List[Any]] = []
+    for k in range(6 if quick else 10):
+        nthr = 3 if (k % 3 == 1 and rng.random() < 0.5) else 2
+        lists = [[rng.choice([1, 2, 3])] + ([rng.choice([1, 2])] if rng.random() < 0.25 else []) for _ in range(nthr)]
+        pre = [["append", rng.choice([1, 2])]] if rng.random() < 0.4 else []
+        out.append([["create"]] + pre + [["threads", lists, [[rng.randrange(nthr), k]]]])
+    for _ in range(2 if quick else 8):
+        nthr = rng.choice([2, 3])
+        lists = [[rng.choice([1, 2]), rng.choice([1, 3])] for _ in range(nthr)]
+        holds = [[t, rng.randrange(0, 10)] for t in rng.sample(range(nthr), 2)]
+        out.append([["create"], ["threads", lists, holds]])
+    return out
+
+
 # ------------------------------------------------------------------------------------------ correspondence
 def corr_model(ctx, cases: List[Case], prefix: str = "") -> None:
     exprs: List[str] = []
@@ -867,6 +916,20 @@ def run(ctx) -> None:
     ctx.stats["data_sizes"] = sstats
     if not sized_cases or not pre_cases:
         ctx.proof_problems.append("no data-size scenario was generated (no integer literal found in the writer modules)")
+    # ---- in-process concurrency: writer threads of one process on one table, slow directory fsyncs (oracle only)
+    t0 = time.time()
+    thr_cases = make_cases(ctx, [{"steps": s, "mode": "inproc"} for s in thread_scenarios(ctx.rng, quick)])
+    logs = [h for c in thr_cases for r in (c.results or []) for h in r.get("schedule_log", [])]
+    ctx.stats["threads"] = {"scenarios": len(thr_cases), "run_s": round(time.time() - t0, 1), "slow_dir_fsyncs": len(logs),
+                            "released_by": {w: sum(1 for h in logs if h["released"] == w) for w in sorted({h["released"] for h in logs})},
+                            "dir_fsyncs_with_foreign_calls_before_return": sum(1 for c in thr_cases for ev in c.raw if ev.get("issued_at") is not None),
+                            "thread_commits": sum(t.get("commits", 0) for c in thr_cases for r in (c.results or []) for t in r.get("threads", [])),
+                            "threads_failed": sum(1 for c in thr_cases for r in (c.results or []) for t in r.get("threads", []) if not t.get("ok"))}
+    if thr_cases and not any(h["released"] == "rename-landed" for h in logs):
+        ctx.proof_problems.append("threaded scenarios: no rename of another thread landed during a slow directory fsync (the interleaving class was not exercised)")
+    for c in thr_cases:
+        ctx.count(1, ("threads", json.dumps(c.steps)))
+    pre_cases = pre_cases + thr_cases
     for c in cases + scases + sized_cases + pre_cases + sized_scases:
         if c.error:
             report_unbounded(ctx, c)
